@@ -90,6 +90,25 @@ def Rot.apply (r : Rot K) (v : V3 K) : V3 K := r.toMat.apply v
 def Rot.applyInv (r : Rot K) (v : V3 K) : V3 K := r.toMat.transpose.apply v
 end Algebra
 
+section EulerG
+variable {K : Type} [Add K] [Sub K] [Mul K] [Neg K] [OfNat K 0] [OfNat K 1]
+/-- `_make_elementary_quat` with `s = sin(angle/2)`, `c = cos(angle/2)` about storage axis `i` -/
+def elementaryG (i : Nat) (s c : K) : Q K :=
+  ⟨if i = 0 then s else 0, if i = 1 then s else 0, if i = 2 then s else 0, c⟩
+/-- `from_euler`: `axes` are storage indices, `sc` the (sin, cos) of the half angles; intrinsic composes on the right -/
+def fromEulerG (axes : List Nat) (sc : List (K × K)) (intrinsic : Bool) : Q K :=
+  match axes.zip sc with
+  | [] => ⟨0, 0, 0, 1⟩
+  | (a0, t0) :: rest =>
+    rest.foldl (fun q (a, t) => if intrinsic then Q.mul q (elementaryG a t.1 t.2) else Q.mul (elementaryG a t.1 t.2) q)
+      (elementaryG a0 t0.1 t0.2)
+/-- rotation matrix about storage axis `i` with the given cosine and sine of the full angle -/
+def axisRot (i : Nat) (co si : K) : Mat3 K :=
+  if i = 0 then ⟨1, 0, 0, 0, co, -si, 0, si, co⟩
+  else if i = 1 then ⟨co, 0, si, 0, 1, 0, -si, 0, co⟩
+  else ⟨co, -si, 0, si, co, 0, 0, 0, 1⟩
+end EulerG
+
 /-- improper flag of `p ** n` for an integer `n` (`**` decision logic): kept for odd `n`, dropped for even -/
 def powFlag (n : Int) (improper : Bool) : Bool := if n % 2 = 1 then improper else false
 /-- n-fold XOR of a flag with itself -/
@@ -112,16 +131,11 @@ def canonical (ix iy iz : Nat) (q : Q Float) : Q Float :=
   if inv then q.neg else q
 
 /-- `_make_elementary_quat`: rotation by `angle` about storage axis `i` -/
-def elementary (i : Nat) (angle : Float) : Q Float :=
-  let s := Float.sin (angle / 2); let c := Float.cos (angle / 2)
-  ⟨if i = 0 then s else 0, if i = 1 then s else 0, if i = 2 then s else 0, c⟩
+def elementary (i : Nat) (angle : Float) : Q Float := elementaryG i (Float.sin (angle / 2)) (Float.cos (angle / 2))
 
 /-- `from_euler`: `axes` are storage indices of the sequence letters; intrinsic composes on the right -/
 def fromEuler (axes : List Nat) (angles : List Float) (intrinsic : Bool) : Q Float :=
-  match axes.zip angles with
-  | [] => ⟨0, 0, 0, 1⟩
-  | (a0, t0) :: rest =>
-    rest.foldl (fun q (a, t) => if intrinsic then Q.mul q (elementary a t) else Q.mul (elementary a t) q) (elementary a0 t0)
+  fromEulerG axes (angles.map (fun t => (Float.sin (t / 2), Float.cos (t / 2)))) intrinsic
 
 def qget (q : Q Float) (i : Nat) : Float := if i = 0 then q.a else if i = 1 then q.b else if i = 2 then q.c else q.w
 
@@ -138,15 +152,17 @@ def toEuler (quat : Q Float) (seq : List Nat) (extrinsic : Bool) : List Float :=
   let angles1 := 2 * Float.atan2 (hypot c d) (hypot a b)
   let halfSum := Float.atan2 b a
   let halfDiff := Float.atan2 d c
-  let angles0 := halfSum - halfDiff
-  let angles2 := halfSum + halfDiff
-  let angles2 := if symmetric then angles2 else angles2 * sign
-  let angles1 := if symmetric then angles1 else angles1 - pi / 2
-  let (angles0, angles2) := if extrinsic then (angles0, angles2) else (angles2, angles0)
+  -- the singularity test uses the second angle *before* it is shifted for non-symmetric sequences
   let case1 := Float.abs angles1 ≤ 1e-7
   let case2 := Float.abs (angles1 - pi) ≤ 1e-7
+  let angles0 := halfSum - halfDiff
+  let angles2 := halfSum + halfDiff
+  let (angles0, angles2) := if extrinsic then (angles0, angles2) else (angles2, angles0)
   let angles2 := if !case1 && !case2 then angles2 else 0
   let angles0 := if case1 then 2 * halfSum else if case2 then 2 * halfDiff * (if extrinsic then -1 else 1) else angles0
+  let angles2 := if !symmetric && extrinsic then angles2 * sign else angles2
+  let angles0 := if !symmetric && !extrinsic then angles0 * sign else angles0
+  let angles1 := if symmetric then angles1 else angles1 - pi / 2
   let wrap := fun (t : Float) => let t := if t < -pi then t + 2 * pi else t; if t > pi then t - 2 * pi else t
   [wrap angles0, wrap angles1, wrap angles2]
 
